@@ -1218,6 +1218,10 @@ func (g *Gen) rangeInstr(x *ssa.Range) Val {
 		g.heapDecl(vis, "(Array "+ks+" Bool)")
 		g.cur.store[vis] = fmt.Sprintf("((as const (Array %s Bool)) false)", ks)
 		d0 := g.define("dom0", "(Array "+ks+" Bool)", fmt.Sprintf("(ite (= %s 0) ((as const (Array %s Bool)) false) (select %s %s))", m.S, ks, g.heapGet(g.cur, dom), m.S))
+		if g.mode == ModeInt {
+			// ranging over a nil map: the empty domain has no entries
+			g.assume(fmt.Sprintf("(= (%s ((as const (Array %s Bool)) false)) 0)", g.mapCard(mt), ks))
+		}
 		cnt := fmt.Sprintf("iter.%d.count", g.nIter)
 		g.heapDecl(cnt, "Int")
 		g.cur.store[cnt] = "0"
@@ -1258,6 +1262,10 @@ func (g *Gen) nextInstr(x *ssa.Next) Val {
 			// every yielded entry is a distinct key of the map as it was when the loop started
 			card := g.mapCard(it.mt)
 			g.assume(fmt.Sprintf("(and (=> %s (< %s (%s %s))) (<= %s (%s %s)) (<= 0 (%s %s)))", ok, c, card, it.dom0, c, card, it.dom0, card, it.dom0))
+			// when the iteration ends and no key the map had at the start has been deleted meanwhile, every one of
+			// them has been yielded exactly once
+			// (keys are values of the key type: the quantifier is guarded the way contract quantifiers are)
+			g.assume(fmt.Sprintf("(=> (and (not %s) (forall ((k %s)) (=> (and %s (select %s k)) (select (select %s %s) k)))) (= %s (%s %s)))", ok, ks, g.rangeOf(it.mt.Key(), "k", g.cur), it.dom0, g.heapGet(g.cur, dom), it.m, c, card, it.dom0))
 		}
 	}
 	return Val{T: x.Type(), Tuple: []Val{{T: types.Typ[types.Bool], S: ok}, k, {T: it.mt.Elem(), S: v}}}
